@@ -81,6 +81,46 @@ PROPS["C07"] = dict(
     min_evaluations=dict(quick=600, thorough=15000),
 )
 
+def fuzz(harness, variant="fuzz", libs=(), quick=None, thorough=None, **kw):
+    d = dict(type="fuzz", harness=harness, variant=variant, libs=list(libs), quick=quick, thorough=thorough)
+    d.update(kw)
+    return d
+
+
+def _c08_fuzz_args(runs, with_seeds=True):
+    a = ["--family={i}", "--out={out}", "-seed={seed}", "-runs=%d" % runs, "-max_len=4096", "-timeout=25", "-rss_limit_mb=4096",
+         "-print_final_stats=1", "-artifact_prefix={out}/", "{out}/corpus"]
+    if with_seeds:
+        a.append("{scratch}/c08seeds/{i}")
+    return a
+
+
+PROPS["C08"] = dict(
+    title="Component decoders are safe on arbitrary bytes and respect capacities",
+    level="exploration",
+    design_ref="DESIGN.md section 8, C08",
+    level_text=("Generated-input search (coverage-guided fuzzing + property-based near-valid mutants) under ASan/UBSan(memory subset) with an in-target contract oracle. "
+                "Every decoder entry point below the file layer (Thrift FileMetaData / PageHeader parse, hybrid RLE decode_all / levels / prefixed levels / streaming decoder, "
+                "nine PLAIN decoders, delta int32/int64/length/strings, three byte-stream-split decoders, four dictionary decoders, Snappy/LZ4/GZIP/ZSTD decompress, bit reader) is "
+                "called with input and output in separate exact-size heap blocks; oracle: no sanitizer report, success implies reported size <= declared capacity and bytes "
+                "consumed <= input length, returned byte-array pointers lie inside the input or the caller's work buffer, parsed metadata is traversed completely, an error "
+                "struct is filled on failure, live heap bytes after the call equal those before it (nothing stays allocated), and no input runs longer than 20 s. Shows the "
+                "property on everything explored; cannot establish absence of a counterexample."),
+    level_note="libFuzzer campaigns are only approximately reproducible from the seed (the saved artifact is the reproducible unit); the rapidcheck engine is exactly reproducible",
+    technique="coverage-guided fuzzing (libFuzzer, one process per decoder family, structure-aware argument trailer, corpus seeded from reference encoders) plus property-based testing of near-valid mutants (rapidcheck), contract oracle inside the target under ASan/UBSan",
+    rule=("evaluations count decoder calls. Non-trivial: fuzz engine - the call decoded at least one element (distinct by FNV-1a-64 of the input); mutation engine - the input "
+          "derives from a valid encoding of at least two bytes (valid calls themselves must be accepted)."),
+    assumptions=["declared counts above the 16 MiB output block the harness allocates are reduced to it (the caller contract is count <= capacity)",
+                 "zlib/zstd internals are trusted; only carquet's wrappers are under test for GZIP/ZSTD"],
+    engines=[pbt("c08_mutants", libs=["rapidcheck", "snappy", "lz4"], quick=dict(cases=2500, size=100, procs=8), thorough=dict(cases=40000, size=100, procs=16)),
+             fuzz("c08_fuzz", name="c08_fuzz_seeded", asan_extra="quarantine_size_mb=64",
+                  prepare=[dict(engine="c08_mutants", args=["--emit", "{scratch}/c08seeds", "4000", "{seed}"], mkdirs=["{scratch}/c08seeds/%d" % i for i in range(8)])],
+                  quick=dict(procs=8, args=_c08_fuzz_args(60000), timeout=900), thorough=dict(procs=8, args=_c08_fuzz_args(3000000), timeout=7200)),
+             fuzz("c08_fuzz", name="c08_fuzz_empty", asan_extra="quarantine_size_mb=64",
+                  thorough=dict(procs=8, args=_c08_fuzz_args(1500000, False), timeout=7200))],
+    min_evaluations=dict(quick=300000, thorough=15000000),
+)
+
 PROPS["C09"] = dict(
     title="Codecs round-trip every input and honour their size bounds",
     level="exploration",
